@@ -480,8 +480,24 @@ Fixpoint deliver (c : cfg) (fuel : nat) (r : reader) : list N * dend :=
 
 (* ------------------------------------------------------------------------------------------- *)
 (** * transcoder instances (the models of C05) and their character-level decoding functions *)
-Definition xc_utf8 : xcoder := fun src m =>
-  match x8_from src m with Ok (o, _, e) => Ok (o, e) | Err e => Err e end.
+(** XMLUTF8Transcoder::transcodeFrom: the loop of C05's [x8_loop] over the same step function [x8_step], without the
+    charSizes output and with the "more than 32 characters produced" counter saturating at 33 (the only test on
+    it is [32 < produced]); this keeps the extracted unary-number arithmetic linear in the block size *)
+Fixpoint x8_fast (fuel : nat) (src : list N) (room produced : nat) : res (list N * nat) xerr :=
+  match fuel with
+  | O => Err E_Fuel
+  | S f =>
+    match x8_step src room produced with
+    | SStop | SBreak32 => Ok ([], O)
+    | SErr e => Err e
+    | SOut u n =>
+      match x8_fast f (skipn n src) (room - length u) (if Nat.ltb 32 produced then produced else (produced + length u)%nat) with
+      | Ok (o, e) => Ok (u ++ o, (n + e)%nat)
+      | Err e => Err e
+      end
+    end
+  end.
+Definition xc_utf8 : xcoder := fun src m => x8_fast (S (length src)) src m 0.
 Definition xc_utf16 (swapped : bool) : xcoder := fun src m =>
   let o := u16_from swapped src m in Ok (o, (2 * length o)%nat).
 Definition xc_latin1 : xcoder := fun src m => let o := l1_from src m in Ok (o, length o).
